@@ -9,7 +9,9 @@
 (***************************************************************************)
 EXTENDS Naturals, Sequences, FiniteSets, TLC
 CONSTANTS Deviations
-VARIABLES scn,      \* [kind, extractor, prefix, statusmap, methods : Seq([fn, ep, errs, tags, cpref, name, meta])]
+VARIABLES scn,      \* [kind, extractor, prefix, statusmap, plan, methods : Seq([fn, ep, errs, tags, cpref, name, meta])]
+                    \* plan: "same" = three generations for the same registry; "shrink" = the second generation (same specification
+                    \*       object) documents only the first method, the third all of them again
                     \* meta: "full" = the method is annotated with its own summary, description, deprecated flag, example,
                     \*       servers, external docs (and security for OpenAPI); "schemas" = explicit params / result schemas
                     \* statusmap: "map" = OpenAPI(error_http_status_map={2001: 400}): that error gets a response entry of its own
@@ -27,8 +29,9 @@ HasDoc     == [f1 |-> TRUE,         f2 |-> FALSE,            f3 |-> TRUE,       
 ReadsDocstrings == scn.extractor \in {"doc", "doc+pyd"}
 RendersErrors   == scn.kind = "openrpc" \/ scn.extractor # "base"      \* the base extractor produces no response schemas at all
 ReadsSignatures == scn.extractor \in {"pyd", "doc", "doc+pyd"}
-ErrRef(j) == CASE scn.methods[j].errs = "shared" -> 1 [] scn.methods[j].errs = "own" -> 1 + j [] OTHER -> 0
-InitHeap(ms) == [k \in 1..(1 + Len(ms)) |-> <<2001>>]          \* every annotated errors list starts as [E2001]
+ErrRef(j) == CASE scn.methods[j].errs = "shared" -> 1 [] scn.methods[j].errs \in {"own", "own2"} -> 1 + j [] OTHER -> 0
+\* an annotated errors list starts as [E2001]; a method's own list of kind "own2" as [E2001, E2002]
+InitHeap(ms) == [k \in 1..(1 + Len(ms)) |-> IF k > 1 /\ ms[k - 1].errs = "own2" THEN <<2001, 2002>> ELSE <<2001>>]
 InitWith(s) == scn = s /\ heap = InitHeap(s.methods) /\ docs = <<>>
 
 RECURSIVE Dedup(_)
@@ -65,7 +68,10 @@ FacetsAllowed(x, m) ==
 MetaVerdict(e) == IF \E j \in DOMAIN scn.methods : /\ scn.methods[j].fn = e.fn /\ scn.methods[j].ep = e.ep /\ scn.methods[j].name = e.name
                                                    /\ FacetsAllowed(e.meta, scn.methods[j])
                   THEN "ok" ELSE "foreign"
-DocOf(h) == {EntryOf(j, h) : j \in {i \in DOMAIN scn.methods : Documented(i)}}
+\* the registry handed to generation g
+Sub(g) == IF scn.plan = "shrink" /\ g = 2 THEN {1} ELSE DOMAIN scn.methods
+DocOfSub(h, J) == {EntryOf(j, h) : j \in {i \in J : Documented(i)}}
+DocOf(h) == DocOfSub(h, DOMAIN scn.methods)
 
 \* a generation: appends a document, touches nothing the user owns
 \* Known deviations (known_findings.json): documents that do not validate against the official meta-schema
@@ -75,14 +81,14 @@ DocOf(h) == {EntryOf(j, h) : j \in {i \in DOMAIN scn.methods : Documented(i)}}
 MetaMayFail == \/ "OpenApi30Invalid" \in Deviations /\ scn.kind = "openapi30"
                   /\ (scn.extractor # "base" \/ \E j \in DOMAIN scn.methods : scn.methods[j].meta = "schemas")
                \/ "DocstringNullType" \in Deviations /\ scn.kind = "openrpc" /\ scn.extractor = "doc"
-Generate == /\ docs' = Append(docs, DocOf(heap))
+Generate == /\ docs' = Append(docs, DocOfSub(heap, Sub(Len(docs) + 1)))
             /\ heap' = heap
             /\ UNCHANGED scn
 Next == Generate
 Spec == [][Next]_vars
 
 Pure       == [][heap' = heap]_vars
-Idempotent == \A i, j \in DOMAIN docs : docs[i] = docs[j]
-Isolated   == \A i \in DOMAIN docs : docs[i] = DocOf(InitHeap(scn.methods))     \* as if every method had been documented alone, first
-ExactlyOnce == \A i \in DOMAIN docs : Cardinality(docs[i]) = Cardinality({j \in DOMAIN scn.methods : Documented(j)})
+Idempotent == \A i, j \in DOMAIN docs : Sub(i) = Sub(j) => docs[i] = docs[j]
+Isolated   == \A i \in DOMAIN docs : docs[i] = DocOfSub(InitHeap(scn.methods), Sub(i))     \* as if every method had been documented alone, first
+ExactlyOnce == \A i \in DOMAIN docs : Cardinality(docs[i]) = Cardinality({j \in Sub(i) : Documented(j)})
 =============================================================================
